@@ -1,12 +1,51 @@
 /-
-  Hand-written driver entries (hand models, stateful objects). Same ids as harness/src/hand.rs.
+  Hand-written driver entries (hand models, stateful objects, generic entry points).
+  Same ids as harness/src/hand.rs.
 -/
 import Statrs.Driver.Proto
 import Statrs.Gen.SFFloat
 import Statrs.Gen.All
+import Statrs.Model.FHand
 namespace Statrs.Model.Dispatch
-open Statrs Statrs.Driver
+open Statrs Statrs.Driver Statrs.Gen
 
-def table : List (String × (List Arg → String)) := []
+def stat1 (f : List Float → Float) : List Arg → String
+  | [Arg.fl l] => reply (f l)
+  | _ => "bad-args"
+def stat2 (f : List Float → List Float → Float) : List Arg → String
+  | [Arg.fl a, Arg.fl b] => reply (f a b)
+  | _ => "bad-args"
+
+/-- the same model function serves the slice, Vec, by-value-iterator and `Data` entry points -/
+def statEntries (name : String) (f : List Float → Float) : List (String × (List Arg → String)) :=
+  [("IterStatistics::" ++ name, stat1 f), ("IterStatistics::" ++ name ++ "@vec", stat1 f),
+   ("IterStatistics::" ++ name ++ "@iter", stat1 f)]
+
+def table : List (String × (List Arg → String)) :=
+  statEntries "min" (IterStatistics.min (α := Float)) ++
+  statEntries "max" (IterStatistics.max (α := Float)) ++
+  statEntries "abs_min" (IterStatistics.abs_min (α := Float)) ++
+  statEntries "abs_max" (IterStatistics.abs_max (α := Float)) ++
+  statEntries "mean" (IterStatistics.mean (α := Float)) ++
+  statEntries "geometric_mean" (IterStatistics.geometric_mean (α := Float)) ++
+  statEntries "harmonic_mean" (IterStatistics.harmonic_mean (α := Float)) ++
+  statEntries "variance" (IterStatistics.variance (α := Float)) ++
+  statEntries "std_dev" (IterStatistics.std_dev (α := Float)) ++
+  statEntries "population_variance" (IterStatistics.population_variance (α := Float)) ++
+  statEntries "population_std_dev" (IterStatistics.population_std_dev (α := Float)) ++
+  statEntries "quadratic_mean" (IterStatistics.quadratic_mean (α := Float)) ++
+  [("IterStatistics::covariance", stat2 (IterStatistics.covariance (α := Float))),
+   ("IterStatistics::population_covariance", stat2 (IterStatistics.population_covariance (α := Float))),
+   ("Data::min", stat1 (IterStatistics.min (α := Float))),
+   ("Data::max", stat1 (IterStatistics.max (α := Float))),
+   ("Data::mean", fun a => match a with
+      | [Arg.fl l] => reply (some (IterStatistics.mean (α := Float) l))
+      | _ => "bad-args"),
+   ("Data::variance", fun a => match a with
+      | [Arg.fl l] => reply (some (IterStatistics.variance (α := Float) l))
+      | _ => "bad-args"),
+   ("crate::function::beta::inv_beta_reg", fun a => match a with
+      | [Arg.f x, Arg.f y, Arg.f z] => reply (FHand.F.beta.inv_beta_reg x y z)
+      | _ => "bad-args")]
 
 end Statrs.Model.Dispatch
